@@ -1578,6 +1578,23 @@ impl<D: AsyncDB, M: MakeConnection<Conn = D>> Runner<D, M> {
     }
 }
 
+/// The expectation written for an error message the record did not expect.
+///
+/// On a header line an inline message is followed by the retry clause, which the parser would
+/// read back as part of the message; a record with a retry clause gets the multi-line form.
+fn new_expected_error(
+    reference: Option<&ExpectedError>,
+    actual_err: &str,
+    has_retry: bool,
+) -> ExpectedError {
+    match ExpectedError::from_actual_error(reference, actual_err) {
+        ExpectedError::Inline(_) if has_retry => {
+            ExpectedError::Multiline(actual_err.trim().to_string())
+        }
+        expected => expected,
+    }
+}
+
 /// Updates the specified [`Record`] with the [`QueryOutput`] produced
 /// by a Database, returning `Some(new_record)`.
 ///
@@ -1686,9 +1703,10 @@ pub fn update_record_with_output<T: ColumnType>(
                 };
                 Some(Record::Statement {
                     sql,
-                    expected: StatementExpect::Error(ExpectedError::from_actual_error(
+                    expected: StatementExpect::Error(new_expected_error(
                         reference,
                         &e.to_string(),
+                        retry.is_some(),
                     )),
                     loc,
                     conditions,
@@ -1723,9 +1741,10 @@ pub fn update_record_with_output<T: ColumnType>(
                 };
                 Some(Record::Query {
                     sql,
-                    expected: QueryExpect::Error(ExpectedError::from_actual_error(
+                    expected: QueryExpect::Error(new_expected_error(
                         reference,
                         &e.to_string(),
+                        retry.is_some(),
                     )),
                     loc,
                     conditions,
